@@ -131,7 +131,7 @@ UseOf(ty, ref, name) ==
 Usable(ty) == ty.k \notin {"void", "token", "label"}
 
 DeclFunc(name, ty) == [op |-> "NewFunc", name |-> name, ty |-> ty]       \* declaration; ty: pointer to function type
-DeclGlobal(name, ty) == [op |-> "NewGlobal", name |-> name, ty |-> ty]   \* external global of content type ty
+DeclGlobal(name, ty) == [op |-> "NewGlobal", name |-> name, ty |-> ty, as |-> 0]   \* external global of content type ty (as: address space)
 DefGlobal(name, ty, init) == [op |-> "NewGlobalDef", name |-> name, ty |-> ty, init |-> init]
 HTy == TyPtr(TyFunc(TyVoid, <<>>, FALSE))
 PersTy == TyPtr(TyFunc(I32, <<>>, TRUE))
@@ -170,8 +170,18 @@ AsmCons(c) == LET n == c.cfg.cnt[2]
                   xs == IF n = 0 THEN "" ELSE IF n = 1 THEN "X" ELSE "X,X"
               IN IF c.cls = "void" THEN xs ELSE IF n = 0 THEN "=r" ELSE "=r," \o xs
 
+\* pointer operands in address space 1 that are to come from an alloca / a global of that address space
+PtrSrcFix(c) ==
+  IF Has(c.attrs, "ptrsrc") /\ c.attrs.ptrsrc # "param"
+  THEN [c EXCEPT !.ops = [k \in 1..Len(c.ops) |->
+          IF c.ops[k].src = "any" /\ c.ops[k].ty.k = "ptr" /\ c.ops[k].ty.as = 1
+          THEN [c.ops[k] EXCEPT !.src = c.attrs.ptrsrc] ELSE c.ops[k]]]
+  ELSE c
+AllocaAS1(cls, name) ==
+  MkInst(MkCase(KindOf("alloca"), "scaffold", cls, [cnt |-> <<0>>, bund |-> <<>>], <<>>, [addrspace |-> "1"], TRUE, FALSE), name, <<>>)
+
 Scaffold(c0) ==
-  LET c == IF c0.kind = "callbr" THEN CallbrFix(c0) ELSE c0
+  LET c == IF c0.kind = "callbr" THEN CallbrFix(c0) ELSE PtrSrcFix(c0)
       e == EntryOf(c)
       ops == c.ops
       nm(s) == IF c.named THEN s ELSE ""
@@ -200,12 +210,15 @@ Scaffold(c0) ==
                                          ELSE IF e.ctx = "catchret" THEN RBlock(2)
                                          ELSE RBlock(base + CountTo(ops, k, "block"))
                   [] op.src = "func" -> IF c.kind = "callbr" THEN RAsm(op.ty, AsmCons(c)) ELSE RFunc("callee")
+                  [] op.src = "alloca" -> RInst(1, 1)
+                  [] op.src = "global" -> RConst(CGRef("gas", op.ty))
                   [] OTHER -> padRef(op)
       I == MkInst(c, rname, [k \in 1..Len(ops) |-> val(k)])
       nblk == CountTo(ops, Len(ops), "block")
       targets == [j \in 1..nblk |-> Blk(nm("t" \o ToString(j)), <<>>, RetVoid)]
       \* the instruction under test followed by a use of its result, in block b
-      withUse(b) == IF Usable(c.res) THEN <<I, UseOf(c.res, RInst(b, 1), nm("u"))>> ELSE <<I>>
+      pre == IF \E k \in 1..Len(ops) : ops[k].src = "alloca" THEN <<AllocaAS1(c.cls, nm("al"))>> ELSE <<>>
+      withUse(b) == pre \o (IF Usable(c.res) THEN <<I, UseOf(c.res, RInst(b, Len(pre) + 1), nm("u"))>> ELSE <<I>>)
       body == IF e.cat = "term" THEN <<>> ELSE withUse(1)
       term == IF e.cat = "term" THEN I ELSE RetVoid
       nh == IF e.ctx = "catchswitch" THEN c.cfg.cnt[2] ELSE 0
@@ -239,20 +252,25 @@ Scaffold(c0) ==
       pers == e.ctx \in {"invoke", "landingpad", "resume", "catchswitch", "catchpad", "catchret", "cleanuppad", "cleanupret"}
       decls == BaseDecls \o (IF \E k \in 1..Len(ops) : ops[k].src = "func" /\ c.kind # "callbr"
                              THEN <<DeclFunc("callee", calleeTy)>> ELSE <<>>)
+                         \o (IF \E k \in 1..Len(ops) : ops[k].src = "global"
+                             THEN <<[DeclGlobal("gas", ops[CHOOSE k \in 1..Len(ops) : ops[k].src = "global"].ty.e) EXCEPT !.as = 1]>> ELSE <<>>)
   IN Prog(CaseId(c), "cover", decls, Fn("f", ret, params, pers, blocks))
 
 \* constant expression case: @r = global <result type> <expr>, first operand unfoldable
 CExprProg(c) ==
   LET e == EntryOf(c)
+      inAS1 == Has(c.attrs, "ptras")          \* getelementptr from a global in address space 1
       vals == [k \in 1..Len(c.ops) |->
-                 IF k = 1 /\ c.ops[k].slot # "Cond" THEN Opaque(c.ops[k].ty)
+                 IF k = 1 /\ inAS1 THEN CGRef("gas", c.ops[k].ty)
+                 ELSE IF k = 1 /\ c.ops[k].slot # "Cond" THEN Opaque(c.ops[k].ty)
                  ELSE IF c.ops[k].slot = "Cond" THEN
                         (IF c.ops[k].ty = I1 THEN CExpr("icmp", "i32", <<>>, [pred |-> "eq"], TyVoid, I1, <<Opaque(I32), CInt(I32, 7)>>)
                          ELSE ConstOf(c.ops[k].ty, k))
                  ELSE IF c.kind = "select" THEN (IF k = 2 THEN Opaque(c.ops[k].ty) ELSE ConstOf(c.ops[k].ty, k))
                  ELSE SlotConst(c, c.ops[k], k)]
       x == CExpr(c.kind, c.cls, c.flags, c.attrs, c.ty, c.res, vals)
-  IN Prog(CaseId(c), "cexpr", BaseDecls \o <<DefGlobal("r", c.res, x)>>, NoFn)
+  IN Prog(CaseId(c), "cexpr",
+          BaseDecls \o (IF inAS1 THEN <<[DeclGlobal("gas", c.ops[1].ty.e) EXCEPT !.as = 1]>> ELSE <<>>) \o <<DefGlobal("r", c.res, x)>>, NoFn)
 
 \* every constant form as a global initialiser; each entry: <<tag, constant>>
 \* (floating-point values are exactly representable in their type: rounding of literals is C10's subject;
@@ -506,7 +524,8 @@ ExecProg(insts, envs, ub) ==
 
 \* --- mix --------------------------------------------------------------------
 MixKinds == {i \in 1..NKinds : Kinds[i].ctx = "plain" /\ Kinds[i].cat = "inst" /\ Kinds[i].kind \notin {"va_arg"}}
-MixParams == <<I32, I64, I8, I1, F32, F64, TyPtr(I32), Concrete.vec, Concrete.fvec, Concrete.svec, PairTy, Concrete.arr, I8Ptr>>
+MixParams == <<I32, I64, I8, I1, F32, F64, TyPtr(I32), Concrete.vec, Concrete.fvec, Concrete.svec, PairTy, Concrete.arr, I8Ptr,
+               TyPtrAS(I32, 1), TyPtrAS(Concrete.nstruct, 1)>>
 \* sources of an operand of type ty: a parameter, up to two earlier results, a constant
 MixSources(op, pos) ==
   IF op.src = "const" THEN {RConst(SlotConst([kind |-> ""], op, pos))}
@@ -518,7 +537,7 @@ MixSources(op, pos) ==
 RECURSIVE MixVals(_, _)
 MixVals(ops, pos) == IF pos > Len(ops) THEN {<<>>}
                      ELSE {<<v>> \o rest : v \in MixSources(ops[pos], pos), rest \in MixVals(ops, pos + 1)}
-MixCases(e) == {c \in Cases(e) : c.fam \in {"class", "variant", "flags", "path"} /\ c.cfg.bund = <<>>}
+MixCases(e) == {c \in Cases(e) : c.fam \in {"class", "variant", "flags", "path", "as"} /\ c.cfg.bund = <<>>}
 MixSteps ==
   LET n == Len(env) + 1
       ki == RandomElement(MixKinds)
